@@ -244,9 +244,17 @@ func NewMatchField[Int constraints.Integer | *big.Int | ~[]byte, Mask constraint
 		if value.Cmp(maskValue) != 0 {
 			return nil, fmt.Errorf("invalid mask and data")
 		}
-		field.Mask = big2byte(maskInt, length)
+		maskField, err := big2byte(maskInt, length)
+		if err != nil {
+			return nil, err
+		}
+		field.Mask = maskField
 	}
-	field.Value = big2byte(value, length)
+	valueField, err := big2byte(value, length)
+	if err != nil {
+		return nil, err
+	}
+	field.Value = valueField
 	return field, nil
 }
 
